@@ -55,7 +55,10 @@ impl Parser {
         let url = parse_string.into();
         if url.is_empty() {
             caret.attribute.set_is_underlined(false);
-            let mut p = self.hyper_links.pop().unwrap();
+            // a closing OSC 8 without an open hyperlink is ignored
+            let Some(mut p) = self.hyper_links.pop() else {
+                return;
+            };
             let cp = caret.get_position();
             if cp.y == p.position.y {
                 p.length = cp.x - p.position.x;
